@@ -123,7 +123,7 @@ structure Unit where
   /-- names visible in enclosing scopes (host association) -/
   outer : List Name := []
   syms : List Sym := []
-  /-- `argument_list` -/
+  /-- `argument_list` (the routine statement); `gen_decls` declares the arguments in table order -/
   args : List Name := []
   /-- executable part: statements, comments, directives, code blocks (opaque) -/
   body : List Nat := []
@@ -136,14 +136,6 @@ def hasWildcard (u : Unit) : Bool :=
 
 def ofCls (syms : List Sym) (c : Cls) : List Sym := syms.filter (fun s => s.cls == c)
 
-/-- symbols named by the argument list, in argument order -/
-def argSyms (syms : List Sym) : List Name → Option (List Sym)
-  | [] => some []
-  | a :: rest =>
-    match findSym (ofCls syms .arg) a, argSyms syms rest with
-    | some s, some l => some (s :: l)
-    | _, _ => none
-
 def paramSyms (syms : List Sym) (order : List Name) : List Sym :=
   order.filterMap (findSym (syms.filter isParam))
 
@@ -154,11 +146,11 @@ def genDecls (u : Unit) : Except Err (List Sym) :=
   else match orderParams (paramGraph u.syms) with
     | none => .error .paramDeps
     | some order =>
-      if u.isModule && !u.args.isEmpty then .error .argsInModule
-      else match argSyms u.syms u.args with
-        | none => .error .argMissing
-        | some as =>
-          .ok (ofCls u.syms .iface ++ paramSyms u.syms order ++ as ++ ofCls u.syms .dtype ++ ofCls u.syms .other)
+      -- `symbol_table.argument_datasymbols`: the argument symbols in symbol-table order
+      if u.isModule && !(ofCls u.syms .arg).isEmpty then .error .argsInModule
+      else
+        .ok (ofCls u.syms .iface ++ paramSyms u.syms order ++ ofCls u.syms .arg ++ ofCls u.syms .dtype
+          ++ ofCls u.syms .other)
 
 /-! ### sorting (`sorted()` on names) -/
 
